@@ -306,3 +306,45 @@ Proof.
     destruct (of_le (firstn 8 b) <? 0); [discriminate|].
     destruct (MAX_MONEY <? of_le (firstn 8 b)); discriminate.
 Qed.
+
+(** * [const fn] constructors and sign predicates *)
+Lemma const_spec_ok lo hi x v : const_spec lo hi x = Ok v <-> v = x /\ lo <= x <= hi.
+Proof.
+  unfold const_spec, in_range. destruct ((lo <=? x) && (x <=? hi)) eqn:E.
+  - split; [intros H; inversion H; subst; split; [reflexivity | lia] | intros [-> _]; reflexivity].
+  - split; [discriminate | intros [_ H]; exfalso; lia].
+Qed.
+Lemma const_spec_panic lo hi x : const_spec lo hi x = Panic <-> ~ (lo <= x <= hi).
+Proof.
+  unfold const_spec, in_range. destruct ((lo <=? x) && (x <=? hi)) eqn:E.
+  - split; [discriminate | intros H; exfalso; apply H; lia].
+  - split; [intros _; lia | reflexivity].
+Qed.
+Lemma const_spec_never_err lo hi x (e : unit) : const_spec lo hi x <> Err e.
+Proof. unfold const_spec. destruct (in_range lo hi x); discriminate. Qed.
+Lemma zb_const_from_i64_spec x : zb_const_from_i64 x = const_spec (- MAX_MONEY) MAX_MONEY x.
+Proof. unfold zb_const_from_i64, const_spec, in_range, MAX_BALANCE. reflexivity. Qed.
+Lemma zb_const_from_u64_spec x : 0 <= x -> zb_const_from_u64 x = const_spec 0 MAX_MONEY x.
+Proof.
+  intros H. unfold zb_const_from_u64, const_spec, in_range, i64_of_u64, i64_max.
+  rewrite max_money_val.
+  destruct (x <=? 2100000000000000) eqn:E1; destruct (0 <=? x) eqn:E0; cbn [andb]; try reflexivity; try lia.
+  destruct (x <=? 9223372036854775807) eqn:E2; [reflexivity | lia].
+Qed.
+Lemma zat_const_from_u64_spec x : 0 <= x -> zat_const_from_u64 x = const_spec 0 MAX_MONEY x.
+Proof.
+  intros H. unfold zat_const_from_u64, const_spec, in_range.
+  destruct (x <=? MAX_MONEY) eqn:E1; destruct (0 <=? x) eqn:E0; cbn [andb]; try reflexivity; lia.
+Qed.
+Lemma zb_is_positive_spec a : zb_is_positive a = true <-> 0 < a.
+Proof. unfold zb_is_positive. lia. Qed.
+Lemma zb_is_negative_spec a : zb_is_negative a = true <-> a < 0.
+Proof. unfold zb_is_negative. lia. Qed.
+Lemma zb_sign_trichotomy a :
+  (zb_is_positive a = true /\ zb_is_negative a = false) \/ (zb_is_positive a = false /\ zb_is_negative a = true)
+  \/ (a = 0 /\ zb_is_positive a = false /\ zb_is_negative a = false).
+Proof. unfold zb_is_positive, zb_is_negative. lia. Qed.
+Lemma zat_is_zero_spec z : zat_is_zero z = true <-> z = 0.
+Proof. unfold zat_is_zero. lia. Qed.
+Lemma zat_is_positive_spec z : valid_zat z -> zat_is_positive z = negb (zat_is_zero z).
+Proof. unfold zat_is_positive, zat_is_zero, valid_zat. lia. Qed.
